@@ -528,6 +528,9 @@ func (fr *Frame) intrinsic(st *State, callee *ssa.Function, key string, args []V
 	if k := strings.Index(name, "["); k > 0 {
 		name = name[:k] // instantiated generic
 	}
+	if strings.HasPrefix(name, "vsliceeq_") {
+		name = "vsliceeq"
+	}
 	top := fr.top()
 	switch name {
 	case "vassert":
@@ -538,6 +541,12 @@ func (fr *Frame) intrinsic(st *State, callee *ssa.Function, key string, args []V
 	case "vstreq":
 		if callee.Signature.Recv() == nil && len(args) == 2 {
 			return []Val{{T: types.Typ[types.Bool], C: []string{vc.strEqExt(args[0].C[0], args[1].C[0])}}}, true
+		}
+	case "vstreameq":
+		if len(args) == 2 {
+			// the comparison is discharged position by position (quantifier-free obligations); the call itself yields true
+			fr.streamEqObligations(st, args[0], args[1], pos)
+			return []Val{{T: types.Typ[types.Bool], C: []string{"true"}}}, true
 		}
 	case "vsliceeq":
 		if len(args) == 2 {
@@ -1116,4 +1125,52 @@ func (fr *Frame) sliceEqExt(st *State, a, b Val) string {
 		eqs = append(eqs, "(= "+ea.C[ci]+" "+eb.C[ci]+")")
 	}
 	return "(and (= " + a.C[2] + " " + b.C[2] + ") (forall ((k " + i + ")) (=> (and " + vc.ile(vc.idx(0), "k") + " " + vc.ilt("k", a.C[2]) + ") " + andAll(eqs...) + ")))"
+}
+
+// streamEq: two DataOutputX objects hold the same token stream (same length, kinds and payloads).
+func (fr *Frame) streamEq(st *State, a, b Val) string {
+	vc := fr.vc
+	S := a.T.Underlying().(*types.Pointer).Elem()
+	get := func(v Val, name, sort string) string {
+		h := vc.hget(st, fieldKey(S, name), "(Array Int "+sort+")")
+		return "(select " + h + " " + v.C[0] + ")"
+	}
+	isrt := vc.idxSort()
+	n1, n2 := get(a, "tn", isrt), get(b, "tn", isrt)
+	var eqs []string
+	for _, f := range []struct{ n, s string }{{"tk", isrt}, {"ti", isrt}, {"ts", "Str"}} {
+		arr := "(Array " + isrt + " " + f.s + ")"
+		eqs = append(eqs, "(= (select "+get(a, f.n, arr)+" k) (select "+get(b, f.n, arr)+" k))")
+	}
+	return "(and (= " + n1 + " " + n2 + ") (forall ((k " + isrt + ")) (=> (and " + vc.ile(vc.idx(0), "k") + " " + vc.ilt("k", n1) + ") " + andAll(eqs...) + ")))"
+}
+
+// streamEqObligations: same token count, and for every position below a static bound (the number of token writes
+// executed so far in this VC) the tokens agree.
+func (fr *Frame) streamEqObligations(st *State, a, b Val, pos token.Pos) {
+	vc := fr.vc
+	top := fr.top()
+	S := a.T.Underlying().(*types.Pointer).Elem()
+	isrt := vc.idxSort()
+	get := func(v Val, name, sort string) string {
+		h := vc.hget(st, fieldKey(S, name), "(Array Int "+sort+")")
+		return "(select " + h + " " + v.C[0] + ")"
+	}
+	n1, n2 := get(a, "tn", isrt), get(b, "tn", isrt)
+	bound := vc.writeCount[fieldKey(S, "tk")]
+	vc.oblige("assert", top.oblFn, fr.oblName("stream-eq-len"), fr.curCond, "(= "+n1+" "+n2+")", fr.pos(pos), "re-encoded stream has the same number of tokens")
+	vc.oblige("assert", top.oblFn, fr.oblName("stream-eq-bound"), fr.curCond, "(<= "+n1+" "+fmt.Sprint(bound)+")", fr.pos(pos), "token count within the static bound used for the position-wise comparison")
+	for k := 0; k < bound; k++ {
+		ks := vc.idx(int64(k))
+		var eqs []string
+		for _, f := range []struct{ n, s string }{{"tk", isrt}, {"ti", isrt}} {
+			arr := "(Array " + isrt + " " + f.s + ")"
+			eqs = append(eqs, "(= (select "+get(a, f.n, arr)+" "+ks+") (select "+get(b, f.n, arr)+" "+ks+"))")
+		}
+		// string/bytes payloads: same content (extensional), not necessarily the same string object
+		sarr := "(Array " + isrt + " Str)"
+		sa, sb := "(select "+get(a, "ts", sarr)+" "+ks+")", "(select "+get(b, "ts", sarr)+" "+ks+")"
+		eqs = append(eqs, "(or (= "+sa+" "+sb+") "+vc.strEqExt(sa, sb)+")")
+		vc.oblige("assert", top.oblFn, fr.oblName("stream-eq-tok"), fr.curCond, "(=> "+vc.ilt(ks, n1)+" "+andAll(eqs...)+")", fr.pos(pos), fmt.Sprintf("re-encoded stream agrees at token %d", k))
+	}
 }
